@@ -22,7 +22,15 @@ An operation is a list: [kind, args…]
     api_add F x force   get_folder(F).add_file(File(name=x), force)
     api_dfid wf wx / api_dfoid wf / api_rmid wf wx   delete_file_by_id / delete_folder_by_id / Folder.remove_file_by_id; the
                         uuid is addressed by position: "L<k>" k-th live entry, "D<k>" k-th deleted entry, "X" none
+    power k             (surface "net" only) ["network","node","pc",k], k in shutdown / startup / reset; the model is told the
+                        power flag the real node shows afterwards (the power machine is C12's; here it is an input)
+    osscan              ["network","node","pc","os","scan"]: starts the node scan, which ends in FileSystem.scan(instant_scan=True)
 Names are plain tokens; "" (empty) is written "~" on the model's wire.
+
+Surfaces: "fs" a bare FileSystem; "node" / "action" a powered-on Computer in a Simulation (requests with the node prefix /
+agent actions' form_request); "net" a Computer wired to a switch and a second computer, driven ONLY through
+`sim.pre_timestep / sim.apply_request / sim.apply_timestep`, with power requests interleaved (case["node"] = start-up /
+shut-down / node-scan durations, initial power state, whether file operations go through the agent actions).
 """
 from __future__ import annotations
 
@@ -49,10 +57,18 @@ def w(n: str) -> str:
 
 
 # ------------------------------------------------------------------------------------------ model side
-def op_line(op: list) -> str:
-    """The real request path, space separated ("~" = empty name, force as Python truthiness 1/0); ticks by name."""
-    if op[0] in ("pre", "tick"):
+HEAD = 3  # protocol lines before the first operation: reset, new, node
+
+
+def op_line(op: list, flag: Optional[int] = None) -> str:
+    """The real request path, space separated ("~" = empty name, force as Python truthiness 1/0); ticks by name.
+    `flag` = the power flag the real node showed after the operation (surface "net": ticks and power requests)."""
+    if op[0] == "tick" and flag is not None:
+        return f"tick {flag}"
+    if op[0] in ("pre", "tick", "osscan"):
         return op[0]
+    if op[0] == "power":
+        return f"power {1 if flag is None else flag}"
     if op[0] == "raw":
         return " ".join(["req"] + [w(str(t)) for t in op[1]])
     if op[0].startswith("api_"):
@@ -66,9 +82,14 @@ def op_line(op: list) -> str:
     return " ".join(["req"] + [w(str(t)) for t in req])
 
 
-def model_lines(case: dict) -> List[str]:
+def model_lines(case: dict, flags: Optional[List[Optional[int]]] = None) -> List[str]:
+    """`flags[i]` = power flag observed on the real node after op i (None where the model needs none)."""
     d, sc = case.get("restore_duration"), case.get("scan_duration")
-    return ["reset", f"new {'-' if d is None else d} {'-' if sc is None else sc}"] + [op_line(op) for op in case["ops"]]
+    nd = case.get("node") or {}
+    flags = flags or [None] * len(case["ops"])
+    return (["reset", f"new {'-' if d is None else d} {'-' if sc is None else sc}",
+             f"node {1 if nd.get('on', True) else 0} {nd.get('nscan', 10)}"]
+            + [op_line(op, fl) for op, fl in zip(case["ops"], flags)])
 
 
 # ------------------------------------------------------------------------------------------ canonical form
@@ -143,6 +164,13 @@ def action_for(op: list) -> Optional[Tuple[str, dict]]:
     return None
 
 
+def registered_file_actions() -> set:
+    """The file / folder actions the real action registry knows (every one of them must be driven by the rig)."""
+    from primaite.game.agent.actions.abstract import AbstractAction
+    import primaite.game.agent.actions  # noqa: F401
+    return {k for k in AbstractAction._registry if k.startswith(("node-file-", "node-folder-"))}
+
+
 def _file_s(f) -> str:
     return f"#{f.uuid}:{w(f.name)}:{1 if f.deleted else 0}:a{f.num_access}"
 
@@ -159,13 +187,14 @@ def _folder_s(g, owners) -> str:
             + "):" + _routes_s(g._file_request_manager, owners))
 
 
-def dump_impl(fs) -> str:
+def dump_impl(fs, node=None) -> str:
     owners = list(fs.folders.values()) + list(fs.deleted_folders.values())
     # a file route may outlive the file's stay in that folder (move_file): resolve it over every file of the file system
     files = [f for g in owners for f in list(g.files.values()) + list(g.deleted_files.values())]
     return ("L[" + ";".join(_folder_s(g, files) for g in fs.folders.values()) + "] D["
             + ";".join(_folder_s(g, files) for g in fs.deleted_folders.values()) + "] R" + _routes_s(fs._folder_request_manager, owners)
-            + f" c={fs.num_file_creations} d={fs.num_file_deletions}")
+            + f" c={fs.num_file_creations} d={fs.num_file_deletions}"
+            + (" p=1/0" if node is None else f" p={1 if node.operating_state.name == 'ON' else 0}/{node.node_scan_countdown}"))
 
 
 def oracle(fs, after_pre: bool) -> List[str]:
@@ -228,10 +257,36 @@ def describe_impl(fs) -> str:
 class Impl:
     """One real file system on the chosen surface."""
 
-    def __init__(self, surface: str, restore_duration: Optional[int], scan_duration: Optional[int] = None):
+    def __init__(self, surface: str, restore_duration: Optional[int], scan_duration: Optional[int] = None,
+                 node: Optional[dict] = None):
         self.surface = surface
         self.t = 0
-        if surface == "fs":
+        self.pc = None
+        self.via_actions = surface == "action"
+        if surface == "net":
+            # a small network: the computer under test, a switch, a second computer; everything goes through the simulation
+            from primaite.simulator.network.hardware.nodes.host.computer import Computer
+            from primaite.simulator.network.hardware.nodes.network.switch import Switch
+            from primaite.simulator.sim_container import Simulation
+            nd = node or {}
+            self.sim = Simulation()
+            cfg = {"type": "computer", "hostname": "pc", "ip_address": "192.168.1.2", "subnet_mask": "255.255.255.0",
+                   "start_up_duration": nd.get("up", 3), "shut_down_duration": nd.get("down", 3),
+                   "node_scan_duration": nd.get("nscan", 10)}
+            if not nd.get("on", True):
+                cfg["operating_state"] = "OFF"
+            pc = Computer.from_config(cfg)
+            sw = Switch.from_config({"type": "switch", "hostname": "sw", "num_ports": 4})
+            pc2 = Computer.from_config({"type": "computer", "hostname": "pc2", "ip_address": "192.168.1.3",
+                                        "subnet_mask": "255.255.255.0"})
+            for n in (pc, sw, pc2):
+                self.sim.network.add_node(n)
+            self.sim.network.connect(pc.network_interface[1], sw.network_interface[1])
+            self.sim.network.connect(pc2.network_interface[1], sw.network_interface[2])
+            self.pc = pc
+            self.fs = pc.file_system
+            self.via_actions = bool(nd.get("actions"))
+        elif surface == "fs":
             from pathlib import Path
             import tempfile
             from primaite.simulator.file_system.file_system import FileSystem
@@ -296,8 +351,36 @@ class Impl:
             raise ValueError(op)
         return "success"
 
+    def power_flag(self) -> Optional[int]:
+        return None if self.pc is None else (1 if self.pc.operating_state.name == "ON" else 0)
+
+    def reported(self, state: Optional[dict] = None) -> dict:
+        """`file_system` as the simulation reports it for this node (what the game and the observations read)."""
+        if self.pc is None:
+            return self.fs.describe_state()
+        state = state if state is not None else self.sim.describe_state()
+        return state.get("network", {}).get("nodes", {}).get("pc", {}).get("file_system") or {}
+
+    def host_observation(self, state: Optional[dict] = None) -> Optional[dict]:
+        """What an agent's HostObservation of this node shows (surface "net"), read from the simulation state as the game does."""
+        if self.pc is None:
+            return None
+        if getattr(self, "_hostobs", None) is None:
+            from primaite.game.agent.observations.host_observations import HostObservation
+            self._hostobs = HostObservation(
+                where=["network", "nodes", "pc"], services=[], applications=[], folders=[], network_interfaces=[], num_services=0,
+                num_applications=0, num_folders=0, num_files=0, num_nics=0, include_nmne=False, monitored_traffic=None,
+                include_num_access=True, file_system_requires_scan=False, services_requires_scan=False,
+                applications_requires_scan=False, include_users=False)
+        return self._hostobs.observe(state if state is not None else self.sim.describe_state())
+
     def apply(self, op: list) -> str:
         k = op[0]
+        if k == "power":  # the answer of a power request is C12's matter; the model is told the resulting flag
+            self.sim.apply_request(["network", "node", "pc", op[1]])
+            return "success"
+        if k == "osscan":
+            return self.sim.apply_request(["network", "node", "pc", "os", "scan"]).status
         if k == "pre":
             (self.sim or self.fs).pre_timestep(self.t)
             return "success"
@@ -313,7 +396,7 @@ class Impl:
             return self.sim.apply_request(["network", "node", "pc", "file_system"] + list(op[1])).status
         if self.sim is None:
             return self.fs.apply_request(_request(op)).status
-        act = action_for(op) if self.surface == "action" else None
+        act = action_for(op) if self.via_actions else None
         if act is not None:
             from primaite.game.agent.actions.abstract import AbstractAction
             import primaite.game.agent.actions  # noqa: F401  (registers the action classes)
@@ -324,23 +407,86 @@ class Impl:
         return self.sim.apply_request(req).status
 
 
-def run_impl(case: dict) -> Tuple[List[str], List[List[str]]]:
-    """Output lines aligned with model_lines(case), and the oracle's verdict after every operation."""
-    impl = Impl(case["surface"], case.get("restore_duration"), case.get("scan_duration"))
-    out = ["ok", "ok"]
+def _tally_delta(impl: "Impl", op: list) -> Optional[Tuple[int, int]]:
+    """(creations, deletions) a direct API call is going to count, judged on the real objects BEFORE the call."""
+    k, fs = op[0], impl.fs
+    if k in ("api_copy", "api_move"):
+        f = fs.get_file(folder_name=op[1], file_name=op[2])
+        if f is None:
+            return (0, 0)
+        if k == "api_copy":
+            return (1, 0)
+        dst = fs.get_folder(op[3])
+        return (0, 0) if (dst is not None and dst.get_file(f.name) is not None) else (1, 1)
+    if k == "api_dfid":
+        g, f = impl._folder_at(op[1]), impl._file_at(op[1], op[2])
+        return (0, 1) if (g is not None and f is not None and g.uuid in fs.folders and f.uuid in g.files) else (0, 0)
+    if k in ("api_add", "api_dfoid", "api_rmid"):
+        return (0, 0)
+    return None  # api_create: known from the answer
+
+
+def run_impl(case: dict) -> Tuple[List[str], List[List[str]], List[Optional[int]]]:
+    """Output lines aligned with model_lines(case, flags), the oracle's verdict after every operation, and the power flag
+    the real node showed after every tick / power request (surface "net")."""
+    impl = Impl(case["surface"], case.get("restore_duration"), case.get("scan_duration"), case.get("node"))
+    out = ["ok"] * HEAD
     verdicts: List[List[str]] = []
+    flags: List[Optional[int]] = []
+    tally: Optional[List[int]] = [0, 0]  # successful creations / deletions since the last pre_timestep (None: not tracked)
     for op in case["ops"]:
+        k = op[0]
+        delta = _tally_delta(impl, op) if k.startswith("api_") and k != "api_create" else None
         try:
             status = impl.apply(op)
         except Exception as e:  # a well-formed request must answer, not raise
             status = "raised"
             # a direct API call may raise and a malformed path is C05's matter: there the answer is only compared
-            verdicts.append([] if (op[0].startswith("api_") or op[0] == "raw") else ["raised:" + type(e).__name__])
-            out.append(f"{status} | {dump_impl(impl.fs)} | {describe_impl(impl.fs)}")
+            verdicts.append([] if (k.startswith("api_") or k == "raw") else ["raised:" + type(e).__name__])
+            flags.append(impl.power_flag() if k in ("tick", "power") else None)
+            out.append(f"{status} | {dump_impl(impl.fs, impl.pc)} | {describe_impl(impl.fs)}")
             continue
-        out.append(f"{status} | {dump_impl(impl.fs)} | {describe_impl(impl.fs)}")
-        verdicts.append(oracle(impl.fs, after_pre=(op[0] == "pre")))
-    return out, verdicts
+        flags.append(impl.power_flag() if k in ("tick", "power") else None)
+        out.append(f"{status} | {dump_impl(impl.fs, impl.pc)} | {describe_impl(impl.fs)}")
+        bad = oracle(impl.fs, after_pre=(k == "pre"))
+        # the counters count THIS tick's successful creations / deletions only (nothing left over from an earlier tick),
+        # read where the game reads them: the node's entry in the simulation's describe_state()
+        if k == "pre":
+            tally = [0, 0]
+        elif k == "raw":
+            tally = None  # an over-long path may still be a creation: not tracked until the next tick starts
+        elif tally is not None:
+            if k in ("cfile", "api_create") and status == "success":
+                tally[0] += 1
+            elif k == "dfile" and status == "success":
+                tally[1] += 1
+            elif delta is not None:
+                tally[0] += delta[0]
+                tally[1] += delta[1]
+        if k in ("pre", "tick") or impl.pc is None:
+            sim_state = impl.sim.describe_state() if impl.pc is not None else None
+            rep = (impl.reported(sim_state) if impl.pc is not None else
+                   {"num_file_creations": impl.fs.num_file_creations, "num_file_deletions": impl.fs.num_file_deletions})
+            if "num_file_creations" not in rep or "num_file_deletions" not in rep:
+                bad.append("node-does-not-report-its-file-system")
+            else:
+                if k == "pre" and (rep["num_file_creations"], rep["num_file_deletions"]) != (0, 0):
+                    bad.append("reported-counters-zero-at-tick-start")
+                if tally is not None and [rep["num_file_creations"], rep["num_file_deletions"]] != tally:
+                    bad.append("counters-count-this-tick-only")
+                if impl.pc is not None and (sorted(rep.get("folders", {})) != sorted(g.name for g in impl.fs.folders.values())
+                                            or set(rep.get("deleted_folders", {})) != {g.name for g in impl.fs.deleted_folders.values()}):
+                    bad.append("node-report-lists-other-folders")
+            if impl.pc is not None and tally is not None:
+                # what the agent sees: non-zero only for a node that is ON and only for this tick's operations (the encoding
+                # of the count itself is C02's / C09's matter)
+                ob = impl.host_observation(sim_state)
+                on = impl.power_flag() == 1
+                for key, cnt in (("num_file_creations", tally[0]), ("num_file_deletions", tally[1])):
+                    if (ob.get(key, 0) != 0) != (on and cnt != 0):
+                        bad.append("host-observation-shows-this-tick-only")
+        verdicts.append(sorted(set(bad)))
+    return out, verdicts, flags
 
 
 # ------------------------------------------------------------------------------------------ generation
@@ -365,6 +511,35 @@ def full_alphabet() -> List[list]:
 def exhaustive(alphabet: List[list], depth: int):
     for seq in itertools.product(alphabet, repeat=depth):
         yield [list(o) for o in seq]
+
+
+def graph_cases(alphabet: List[list], depth: int, restore_duration: Optional[int], run_model, stats: dict):
+    """State-graph family: breadth-first over the MODEL's reachable states (canonical dump, uuids renamed per state), and from
+    every distinct state reached in fewer than `depth` operations EVERY operation of the alphabet, along the first path found
+    to that state. Yields the operation lists level by level; `stats` receives states / transitions per level.
+    (Pruning assumes that the code's future behaviour is a function of the state the dump shows — which is what every
+    yielded trace, compared step by step, keeps testing; the brute-force families do not rely on it.)"""
+    seen = {"init"}
+    frontier: List[list] = [[]]
+    for d in range(1, depth + 1):
+        cands = [p + [list(a)] for p in frontier for a in alphabet]
+        lines: List[str] = []
+        bounds = []
+        for ops in cands:
+            ls = model_lines({"surface": "fs", "restore_duration": restore_duration, "ops": ops})
+            bounds.append(len(lines) + len(ls) - 1)
+            lines += ls
+        out = run_model(lines)
+        new = []
+        for ops, last in zip(cands, bounds):
+            key = canon([out[last]])[0].split(" | ", 1)[1]
+            if key not in seen:
+                seen.add(key)
+                new.append(ops)
+        stats[d] = {"transitions": len(cands), "new_states": len(new), "states_so_far": len(seen)}
+        for ops in cands:
+            yield ops
+        frontier = new
 
 
 def gen_op(rng: Rng, folders: List[str], files: List[str]) -> list:
@@ -484,3 +659,115 @@ def gen_case(rng: Rng, max_ops: int = 30, api: bool = False) -> dict:
     if api:
         case["scan_duration"] = rng.choice([None, None, 0, 1, 2])
     return case
+
+
+# ------------------------------------------------------------------------------------------ node-level families (surface "net")
+POWER_KEYS = ["shutdown", "startup", "reset"]
+
+
+def node_alphabet() -> List[list]:
+    """Bounded-exhaustive family N: the per-tick counters against the power requests and both halves of the tick."""
+    return [["cfile", "fa", "a", True], ["dfile", "fa", "a"], ["power", "shutdown"], ["power", "startup"], ["power", "reset"],
+            ["pre"], ["tick"]]
+
+
+def node_configs() -> List[dict]:
+    """start-up / shut-down durations for family N (0 = the transition is immediate, inside the request)."""
+    return [{"up": 0, "down": 0, "nscan": 1, "on": True}, {"up": 1, "down": 1, "nscan": 1, "on": True},
+            {"up": 0, "down": 2, "nscan": 1, "on": True}, {"up": 2, "down": 0, "nscan": 1, "on": True}]
+
+
+def gen_net_case(rng: Rng, max_ticks: int = 10) -> dict:
+    """Tick-structured history of a computer in a small network: every tick = pre_timestep, the requests of that tick (file
+    operations and power requests of two agents acting on the same host, in either order; node scans), apply_timestep."""
+    node = {"up": rng.choice([0, 1, 2, 3]), "down": rng.choice([0, 1, 2, 3]), "nscan": rng.choice([1, 1, 2, 3]),
+            "on": not rng.chance(1, 8), "actions": rng.chance(1, 2)}
+    folders, files = ["fa", "fb", "root"][: rng.range(1, 3)], ["a", "b"][: rng.range(1, 2)]
+
+    def file_op() -> list:
+        F, x = rng.choice(folders), rng.choice(files)
+        k = rng.below(10)
+        if k < 4:
+            return ["cfile", F, x, rng.choice([False, True, True])]
+        if k < 7:
+            return ["dfile", F, x]
+        while True:
+            op = gen_op(rng, folders, files)
+            if op[0] not in ("pre", "tick"):
+                return op
+
+    # a guess of the power state, only to shape the distribution (the oracle and the model never see it)
+    guess = {"st": "ON" if node["on"] else "OFF", "cd": 0, "resetting": False}
+
+    def g_on():
+        if node["up"] <= 0:
+            guess["st"] = "ON"
+        elif guess["st"] == "OFF":
+            guess["st"], guess["cd"] = "BOOT", node["up"]
+
+    def g_off():
+        if node["down"] <= 0:
+            guess["st"] = "OFF"
+            if guess["resetting"]:
+                guess["resetting"] = False
+                g_on()
+        elif guess["st"] == "ON":
+            guess["st"], guess["cd"] = "DOWN", node["down"]
+
+    def g_tick():
+        if guess["st"] in ("BOOT", "DOWN"):
+            if guess["cd"] > 0:
+                guess["cd"] -= 1
+            elif guess["st"] == "BOOT":
+                guess["st"] = "ON"
+            else:
+                guess["st"] = "OFF"
+                if guess["resetting"]:
+                    guess["resetting"] = False
+                    g_on()
+
+    def power_op() -> list:
+        if guess["st"] == "ON":
+            k = rng.choice(["shutdown", "shutdown", "shutdown", "reset", "reset", "startup"])
+        elif guess["st"] == "OFF":
+            k = rng.choice(["startup", "startup", "startup", "startup", "shutdown", "reset"])
+        else:
+            k = rng.choice(POWER_KEYS)
+        if k == "startup" and guess["st"] == "OFF":
+            g_on()
+        elif k == "shutdown" and guess["st"] == "ON":
+            g_off()
+        elif k == "reset" and guess["st"] == "ON":
+            guess["resetting"] = True
+            g_off()
+        return ["power", k]
+
+    ops: List[list] = [["cfile", rng.choice(folders), rng.choice(files), False] for _ in range(rng.range(0, 2))]
+    for _ in range(rng.range(3, max_ticks)):
+        ops.append(["pre"])
+        m = rng.below(12)
+        if guess["st"] != "ON" and rng.chance(2, 3):
+            # the host is (probably) not on: mostly wait or start it, sometimes try a request that must be refused
+            if guess["st"] == "OFF":
+                ops += ([file_op()] if rng.chance(1, 4) else []) + [power_op()]
+            else:
+                ops += ([file_op()] if rng.chance(1, 3) else []) + ([power_op()] if rng.chance(1, 5) else [])
+        elif m < 2:    # the file operation first, then the power request, in the same tick
+            ops += [file_op() for _ in range(rng.range(1, 2))] + [power_op()]
+        elif m < 3:    # the power request first
+            ops += [power_op()] + [file_op() for _ in range(rng.range(1, 2))]
+        elif m < 8:    # several file operations
+            ops += [file_op() for _ in range(rng.range(1, 4))]
+        elif m < 9:    # a node scan, possibly with a file operation or a power request behind it
+            ops += [["osscan"]] + ([file_op()] if rng.chance(1, 2) else []) + ([power_op()] if rng.chance(1, 3) else [])
+        elif m < 10:   # a Python-API call of a service on that host (not a request: no power guard)
+            ops += [gen_api_op(rng, folders, files)] + ([power_op()] if rng.chance(1, 2) else [])
+        elif m < 11:   # a tick in which nothing happens
+            pass
+        else:          # two power requests in one tick
+            ops += [power_op(), power_op()]
+        if not rng.chance(1, 12):  # now and then a tick without its second half
+            ops.append(["tick"])
+            g_tick()
+    return {"surface": "net", "restore_duration": rng.choice([None, 1, 1, 2, 3]), "scan_duration": rng.choice([None, 1, 2]),
+            "node": node, "ops": ops}
